@@ -143,6 +143,7 @@ def run(ctx):
                     b = b.reshape(-1, 1)
                 seq.append(b)
             is_direct = sname in ('pinv', 'lu', 'cholesky', 'splu', 'callable') or sname is None
+            handed_out = []          # (result object, its value when it was returned)
             for k, b in enumerate(seq):
                 if not is_direct and (b.dtype.kind == 'i' or (cplx and not np.iscomplexobj(b))):
                     continue          # (the relaxation / Krylov routines insist on one common floating dtype: their contract;
@@ -156,6 +157,14 @@ def run(ctx):
                 except Exception as e:   # noqa
                     ctx.fail('coarse/%s/raises' % sname, repr(e), cs)
                     break
+                # answers handed out by earlier calls are the caller's: a later call must not write into them
+                for k0, (obj0, val0) in enumerate(handed_out):
+                    if obj0.shape == val0.shape and not np.array_equal(np.asarray(obj0), val0, equal_nan=True):
+                        ctx.fail('coarse/%s/earlier-answer-overwritten' % sname, 'the array returned by call %d changed during call %d' % (k0, k), cs)
+                        handed_out = []
+                        break
+                if isinstance(x, np.ndarray):
+                    handed_out.append((x, np.array(x, copy=True)))
                 ctx.case((mname, repr(sv), k), kind != 'zero', sample=dict(cs) if len(ctx.samples) < 3 else None)
                 ctx.count('solver:%s' % sname)
                 ctx.count('kind:' + kind)
@@ -196,6 +205,62 @@ def run(ctx):
                     e1 = np.sqrt(abs(np.vdot(ref - xv, Ad @ (ref - xv))))
                     if e1 > e0 * (1 + 1e-10):
                         ctx.fail('coarse/%s/energy-increase' % sname, 'energy error %.6g -> %.6g from the zero guess' % (e0, e1), cs)
+    # two calls with right-hand sides of ONE shape and type in a row (what every cycle does): the first answer stays the first answer
+    Asp = sp.csr_array(gen.poisson_like(rng, 7))
+    for sv in ('pinv', 'lu', 'cholesky', 'splu', 'gauss_seidel', 'cg', 'jacobi'):
+        for shape_ in ((7,), (7, 1)):
+            cgs = coarse_grid_solver(sv)
+            b1 = np.array([rng.uniform(-1, 1) for _ in range(7)]).reshape(shape_)
+            b2 = np.array([rng.uniform(-1, 1) for _ in range(7)]).reshape(shape_)
+            cs = dict(solver=sv, shape=list(shape_), sequence='two calls, same shape and dtype')
+            ctx.mark(cs)
+            try:
+                with warnings.catch_warnings():
+                    warnings.simplefilter('ignore')
+                    x1 = cgs(Asp, b1)
+                    v1 = np.array(x1, copy=True)
+                    x2 = cgs(Asp, b2)
+            except Exception as e:   # noqa
+                ctx.fail('coarse/%s/raises' % sv, repr(e), cs)
+                continue
+            ctx.case(('same-shape-sequence', sv, shape_), True)
+            ctx.count('solver-sequence:' + sv)
+            if not np.array_equal(np.asarray(x1), v1):
+                ctx.fail('coarse/%s/earlier-answer-overwritten' % sv, 'the array returned by the first call changed during the second call (|change| = %.3g)'
+                         % np.linalg.norm(np.ravel(np.asarray(x1) - v1)), cs)
+    # single precision: a matrix that is singular to WORKING precision (the Neumann Laplacian in float32 / complex64): the
+    # pseudo-inverse solver still returns the minimum-norm least-squares solution (to single accuracy), not the amplified noise of a
+    # cut-off chosen for another precision
+    Ln32 = 2.0 * np.eye(36) - np.eye(36, k=1) - np.eye(36, k=-1)
+    Ln32[0, 0] = Ln32[-1, -1] = 1.0
+    # (not integer valued: a matrix with one singular value of relative size 1e-9, so that its single-precision copy is singular
+    # only to single precision)
+    prs = np.random.RandomState(7)
+    Qs, _ = np.linalg.qr(prs.standard_normal((36, 36)))
+    Ln32 = (Qs * np.concatenate([np.linspace(1.0, 3.0, 35), [1e-9]])) @ Qs.T
+    Ln32 = 0.5 * (Ln32 + Ln32.T)
+    for dt_ in (np.float32, np.complex64):
+        A32 = sp.csr_array(Ln32.astype(dt_))
+        for sv in ('pinv', ('pinv', {})):
+            cgs = coarse_grid_solver(sv)
+            for k in range(2):
+                b32 = np.array([rng.uniform(-1, 1) for _ in range(36)]).astype(dt_)
+                cs = dict(matrix='neumann-laplacian-36', dtype=np.dtype(dt_).name, solver=repr(sv), call=k)
+                ctx.mark(cs)
+                try:
+                    with warnings.catch_warnings():
+                        warnings.simplefilter('ignore')
+                        x32 = np.ravel(cgs(A32, b32))
+                except Exception as e:   # noqa
+                    ctx.fail('coarse/pinv/raises', repr(e), cs)
+                    continue
+                ctx.case(('pinv-precision', np.dtype(dt_).name, repr(sv), k), True)
+                ctx.count('solver:pinv/' + np.dtype(dt_).name)
+                ref = np.linalg.lstsq(Ln32, b32.astype(np.complex128 if dt_ == np.complex64 else np.float64), rcond=1e-5)[0]
+                tol_ = 2e-2 if dt_ != np.float64 else 1e-8
+                if not np.all(np.isfinite(x32)) or _nn(np.linalg.norm(x32 - ref)) > tol_ * (1 + np.linalg.norm(ref)):
+                    ctx.fail('coarse/pinv/not-minimum-norm-least-squares/single-precision', '%s matrix: |x - A^+ b| = %.3g, |A^+ b| = %.3g, |x| = %.3g'
+                             % (np.dtype(dt_).name, np.linalg.norm(x32 - ref), np.linalg.norm(ref), np.linalg.norm(x32)), cs)
     ctx.corr_relations = ['k-th call on a used coarse_grid_solver object == first call on a fresh object (history theorem C16_history_independent)']
 
 
